@@ -44,6 +44,10 @@ var branchCmd = &cobra.Command{
 
 		// add branch
 		if len(args) == 1 {
+			// a new branch starts at the HEAD commit, so at least one commit is needed
+			if client.Head.Commit == nil {
+				return fmt.Errorf("fatal: not a valid object name: '%s'", client.Head.Reference)
+			}
 			addBranchName := args[0]
 			addBranchHash := client.Head.Commit.Hash
 
@@ -62,6 +66,9 @@ var branchCmd = &cobra.Command{
 
 		// rename current branch
 		if renameOption != "" {
+			if client.Head.Commit == nil {
+				return fmt.Errorf("fatal: no commit on branch '%s' yet", client.Head.Reference)
+			}
 			prevBranch := client.Head.Reference
 			if err := client.Refs.RenameBranch(client.RootGoitPath, client.Head.Reference, renameOption); err != nil {
 				return fmt.Errorf("fail to rename branch: %w", err)
